@@ -386,7 +386,7 @@ func keys(m map[string]bool) []string {
 }
 
 func TestC19Ops(t *testing.T) {
-	common.Check(t, id, "TestC19Ops", 100000, 2000000, genOpsCase, opsProp)
+	common.Check(t, id, "TestC19Ops", 80000, 2000000, genOpsCase, opsProp)
 }
 
 // ---------------------------------------------------------------------------------------------------------------
@@ -501,7 +501,7 @@ func genDecodeCase(rt *rapid.T) decodeCase {
 }
 
 func TestC19Decode(t *testing.T) {
-	common.Check(t, id, "TestC19Decode", 100000, 2000000, genDecodeCase, decodeProp)
+	common.Check(t, id, "TestC19Decode", 80000, 2000000, genDecodeCase, decodeProp)
 }
 
 // fuzzCase derives the whole case from the fuzzed bytes (the extra insertions too, so the target is a pure function).
@@ -927,5 +927,5 @@ func describe(refs []refSet, idx []int) string {
 }
 
 func TestC19Combine(t *testing.T) {
-	common.Check(t, id, "TestC19Combine", 40000, 400000, genCombineCase, combineProp)
+	common.Check(t, id, "TestC19Combine", 24000, 400000, genCombineCase, combineProp)
 }
